@@ -98,7 +98,7 @@ def predicate(c):
     if not r:
         return [("C11-empty-result", "harness produced no result")]
     for cls, _ in r:
-        if kind(cls) in ("panic", "hang") and "framing" not in f:
+        if kind(cls) in ("panic", "hang") and "framing" not in f and "split" not in f:
             bad.append(("C17-panic-or-hang", f"operation outcome {cls}"))
     op = f.get("op", "")
     if "cross" in f:
@@ -107,6 +107,61 @@ def predicate(c):
         ks = [kind(x) for x, _ in r]
         if ks[0] != "kafka" or any(k != "ok" for k in ks[1:]) or any(x != "0" for _, x in r):
             bad.append((KEY_CROSS, "after a produce error the following heartbeats must each read their own frame: " + c["go"]))
+        return bad
+    if "comp" in f:
+        # compressed sets (not modelled: predicate only): ReadMessage k times / Conn.ReadMessage /
+        # Conn.Read, Close inside or before the compressed unit, then two operations: every
+        # delivered message is a stored one in order, Close keeps the Conn, and the next operations
+        # read their own frames
+        ks = [kind(x) for x, _ in r]
+        want = parse_msgs(f.get("want", "[]")) or []
+        if ks[0] != "ok" or r[0][1] != "0":
+            bad.append(("C11-compressed-batch-close-outcome", f"{op} {f.get('msgset')}/{f.get('codec')} layout={f.get('layout')} k={f.get('k')}: {r[0][0][:80]}~{r[0][1]}"))
+        else:
+            acts = r[0][0].split(":[", 1)[1][:-1]
+            got = [a.split(",", 1)[1].rsplit(",", 1)[0] for a in acts.split(";") if a.startswith("m,") and a.endswith(",ok")]
+            if got != want[:len(got)]:
+                bad.append(("C11-compressed-batch-wrong-message", f"{op} {f.get('codec')}: delivered {got} is not a prefix of {want}"))
+        for i, k in enumerate(ks[1:], 2):
+            if k != "ok" or r[i - 1][1] != "0":
+                bad.append(("C11-close-inside-compressed-batch-leaves-stream-misaligned",
+                            f"{op} msgset={f.get('msgset')} codec={f.get('codec')} layout={f.get('layout')} k={f.get('k')}: after {r[0][0][:50]} "
+                            f"operation #{i} returned {r[i - 1][0][:50]} instead of reading its own frame"))
+                break
+        return bad
+    if "msgcut" in f:
+        # Conn.ReadMessage / Batch.ReadMessage+Close over every cut position: an error, or (no cut)
+        # exactly the stored records — never a nil error on a truncated response
+        ks = [kind(x) for x, _ in r]
+        cut = c["args"].split(" ")[3]
+        want = parse_msgs(f.get("want", "[]")) or []
+        if cut == "-":
+            if ks[0] != "ok" or any(k != "ok" for k in ks[1:]):
+                bad.append(("C17-readmessage-complete-response", c["go"][:160]))
+        else:
+            if ks[0] in ("ok", "kafka", "shortbuf"):
+                bad.append(("C17-readmessage-nil-error-on-cut-response",
+                            f"{op} msgset={f.get('msgset')}: response cut at byte {cut}: the call returned {r[0][0][:90]} (no error; messages wholly received at {f.get('recends')})"))
+            elif r[0][1] != "1":
+                bad.append(("C17-readmessage-cut-conn-kept", f"{op}: response cut at byte {cut}: {r[0][0][:40]} but the Conn was kept"))
+            elif len(ks) > 1 and ks[1] in ("ok", "kafka"):
+                bad.append(("C17-conn-used-after-cut", f"{op}: cut at {cut}: next operation {r[1][0][:40]}"))
+        if ks[0] == "ok":
+            acts = r[0][0].split(":[", 1)[1][:-1]
+            got = [a.split(",", 1)[1].rsplit(",", 1)[0] for a in acts.split(";") if a.startswith("m,") and a.endswith(",ok")]
+            if got != want[:len(got)]:
+                bad.append(("C17-readmessage-fabricated-message", f"{op}: delivered {got}, stored {want}"))
+        for kk in ks:
+            if kk in ("hang", "panic"):
+                bad.append(("C17-panic-or-hang", "operation outcome " + kk))
+        return bad
+    if "split" in f:
+        # the response delivered in two pieces at every position (optionally with the following
+        # responses already queued): same results as in one piece: everything succeeds
+        ks = [kind(x) for x, _ in r]
+        if any(k != "ok" for k in ks) or any(x != "0" for _, x in r):
+            bad.append(("C11-split-delivery-misaligns",
+                        f"{op} msgset={f.get('msgset')} delivered in two pieces at byte {c['args'].split(' ')[3].lstrip('es')} (mode {f.get('mode')}): " + c["go"][:200]))
         return bad
     if "readcut" in f:
         # C17 x short-buffer reads: the response is cut while / before / after a value longer than
@@ -373,7 +428,7 @@ def evaluate(cases, res, want):
     if notrun:
         notes.append(f"{len(notrun)} cases NOT RUN: the harness's circuit breaker tripped after 3 cases hit the 2 s watchdog "
                      "(an operation of the real Conn never returned); the hung cases are reported as property violations")
-    bad = L.diff_cases([c for c in sel if "drain" not in feats_of(c) and "notrun~" not in c["go"]], res)
+    bad = L.diff_cases([c for c in sel if "drain" not in feats_of(c) and "comp" not in feats_of(c) and "notrun~" not in c["go"]], res)
     for c in bad[:10]:
         pv = predicate(c)
         detail = json.dumps(dict(case=c["line"][:1500], go=c["go"][:300], model=str(c.get("model"))[:300], feats=c["feats"]))
@@ -403,11 +458,11 @@ def evaluate(cases, res, want):
     ev, dn, hist = L.coverage_counts(sel, trivial_feats=("",))
     # non-trivial: an error code other than 0, or a cut
     dn = len({c["line"] for c in sel if ("cut" in feats_of(c)) or ("drain" in feats_of(c) and not c["args"].endswith(" -"))
-              or feats_of(c).get("code", "0") not in ("0", True) or "cross" in feats_of(c) or "framing" in feats_of(c) or "nego" in feats_of(c) or "reads" in feats_of(c) or "readcut" in feats_of(c)})
+              or feats_of(c).get("code", "0") not in ("0", True) or "cross" in feats_of(c) or "framing" in feats_of(c) or "nego" in feats_of(c) or "reads" in feats_of(c) or "readcut" in feats_of(c) or "comp" in feats_of(c) or "split" in feats_of(c) or ("msgcut" in feats_of(c) and not c["args"].endswith(" -"))})
     hist = {}
     for c in sel:
         f = feats_of(c)
-        for k in ("op", "field", "code", "cutpos", "msgset", "kind", "cap", "list", "cutrel"):
+        for k in ("op", "field", "code", "cutpos", "msgset", "kind", "cap", "list", "cutrel", "codec", "layout", "mode"):
             if k in f:
                 hist[f"{k}={f[k]}"] = hist.get(f"{k}={f[k]}", 0) + 1
     return dict(evaluations=ev, distinct_nontrivial=dn, hist=hist, failures=failures, notes=notes, sel=sel)
@@ -434,7 +489,11 @@ RULE = ("PART A (exhaustive, no randomness in the structure): every (operation, 
         "0 / 1 / len-1 / len / len+3 bytes at the first / middle / last message (earlier ones read by ReadMessage or Read), Close, then "
         "heartbeat + list-offsets or the documented retry + heartbeat; Conn.Read, Conn.ReadMessage.  PART G: Batch.Read / Conn.Read with a "
         "buffer of 0 / 1 / 19 bytes on a 20-byte value (magic 0/1/2, fetch v2/v10) x every cut position inside the value, three before "
-        "and three after it, then Close and a heartbeat: the truncation must be reported (not io.ErrShortBuffer) and the Conn closed.")
+        "and three after it, then Close and a heartbeat: the truncation must be reported (not io.ErrShortBuffer) and the Conn closed.  "
+        "PART H (predicate only: compressed sets are not modelled): gzip/snappy/lz4/zstd magic-2 batches and magic-0/1 wrappers as first / "
+        "middle unit, Close after 0..k messages, Conn.ReadMessage, Conn.Read, then two operations.  PART I: Conn.ReadMessage and "
+        "Batch.ReadMessage x2 + Close over every cut position of small magic-0/1/2 fetch v2/v5/v10 responses.  PART J: the fetch response "
+        "delivered in two pieces at every byte position, with and without the following responses already queued.")
 
 
 def correspondence(ctx):
@@ -461,7 +520,7 @@ def correspondence(ctx):
 def conn_cut_cases(ctx):
     """The truncation cases only (Conn half of C17), same dict shape as correspondence()."""
     cases, res = run_cases(ctx)
-    ev = evaluate(cases, res, lambda f: "cut" in f or "drain" in f or "readcut" in f)
+    ev = evaluate(cases, res, lambda f: "cut" in f or "drain" in f or "readcut" in f or "msgcut" in f)
     sel = ev["sel"]
     samples = [c["line"][:260] + " | " + c["go"][:120] + " | " + c["feats"] for c in (sel[:2] + sel[len(sel)//2:len(sel)//2+2] + sel[-2:])]
     return dict(evaluations=ev["evaluations"], distinct_nontrivial=ev["distinct_nontrivial"], hist=ev["hist"],
